@@ -363,6 +363,9 @@ class _LocalDatePatternParser(_IPatternParser[LocalDate]):
 
             if not used_fields.has_any(_PatternFields.ERA):
                 self.__era = self._template_value.era
+                # The template's era is meaningless if the text specified a calendar which doesn't have that era.
+                if self.__era not in self._calendar.eras():
+                    return ParseResult._inconsistent_values(text, "g", "c", eventual_result_type)
 
             assert self.__era is not None
 
